@@ -79,6 +79,8 @@ type schedSim struct {
 	preemptOps int // preemptions that happened inside an operation
 	switches   int
 	yields     uint64
+	// noAccessTracking: the interleaved-instances worlds compare results, not accesses
+	noAccessTracking bool
 }
 
 func newSchedSim(c *core.Ctx, preemptDen uint64) *schedSim {
@@ -90,8 +92,12 @@ func newSchedSim(c *core.Ctx, preemptDen uint64) *schedSim {
 
 func (s *schedSim) install() {
 	verifrt.YieldHook = s.yield
-	verifrt.AccessHook = s.access
-	verifrt.SyncHook = s.syncAccess
+	if !s.noAccessTracking {
+		// the happens-before check keys variables by object address: sound for C07's one long-lived
+		// sequencer, not for worlds whose threads allocate short-lived objects (addresses are reused)
+		verifrt.AccessHook = s.access
+		verifrt.SyncHook = s.syncAccess
+	}
 	verifrt.LockHook = s.lock
 	verifrt.UnlockHook = s.unlock
 	verifrt.TryLockHook = s.tryLock
